@@ -624,11 +624,30 @@ def check_netcdf(ctx, rng, idx, tmp, cases, lazy_cases, search=False):
 
 # ------------------------------------------------------------------------------------------------
 # CSV
+QUOTING_TITLES = ["a b", "c,d", 'e"f', "a.b", "x[0]", "50%", "a%20b", "t/m", "new\nline", " "]
+
+
+def own_quote(name):
+    """the DAP spelling of a name, written independently of pydap.lib: ASCII letters, digits and `_ - ~ ! * ' " / %` stay,
+    every other byte becomes %XX (period and brackets included)"""
+    keep = set(b"abcdefghijklmnopqrstuvwxyzABCDEFGHIJKLMNOPQRSTUVWXYZ0123456789_-~!*'\"/%")
+    return "".join(chr(b) if b in keep else "%%%02X" % b for b in name.encode("utf-8"))
+
+
 def gen_csv(rng, path):
     ncols = rng.randint(1, 4)
     # plain names and an empty one (a column without
     # a title is still a column)
     header = rng.sample(["index", "temperature", "site", "a", "b", "c_1", "lat", ""], ncols)
+    # titles that need quoting as DAP names (blank, comma, quote, period, brackets, percent), two titles that are
+    # different texts but ONE name once quoted ("a b" / "a%20b"), and the same title twice (also the empty one)
+    r = rng.random()
+    if r < 0.25:
+        k = rng.randrange(ncols)
+        header[k] = rng.choice([t for t in QUOTING_TITLES if t not in header] or ["w w"])
+    if 0.15 < r < 0.4 and ncols >= 2:
+        i, j = rng.sample(range(ncols), 2)
+        header[j] = header[i] if rng.random() < 0.7 or header[i] != "a b" else "a%20b"
     kinds = [rng.choice("ns") for _ in header]
     nrows = rng.choice([0, 1, 2, 3, 5])
     rows = []
@@ -655,7 +674,7 @@ def gen_csv(rng, path):
             sidecar["DODS_EXTRA"] = {"title": "override", "Unlimited_Dimension": "index"}
         seq = {}
         for c in header:
-            if rng.random() < 0.5:
+            if rng.random() < 0.5 and own_quote(c) == c:
                 seq[c] = {"units": rng.choice(["m", "K"]), "scale": 2}
         if rng.random() < 0.3:
             seq["other"] = {"k": "v"}
@@ -687,20 +706,49 @@ def check_csv(ctx, rng, idx, tmp, cases):
         rd = list(csv.reader(f, quoting=csv.QUOTE_NONNUMERIC))
     if rd[0] != header or rd[1:] != rows:
         raise common.InfraError("csv module does not read back what was written")
+    from pydap.exceptions import OpenFileError
+
+    names = [own_quote(t) for t in header]          # the DAP spelling of every title, in the file's order
+    dup = len(set(names)) != len(names)
+    line_hdr = "fh-csvcols (%s) (%s)" % (" ".join(hs(t) for t in header), " ".join(hs(t) for t in names))
     try:
         h = CSVHandler(path)
         seq = h.dataset["sequence"]
         cols = list(seq.keys())
         got_rows = [list(r) for r in seq.iterdata()]
+    except OpenFileError as e:
+        cases.append((line_hdr, "(err)", {k: case[k] for k in ("kind", "seed", "label", "index")}))
+        ctx.count(("csv", ctx.seed, ctx._label, idx), True, tag="csv:rejected:%s" % ("duplicate-title" if dup else "other"),
+                  sample={"header": header})
+        if not dup:
+            ctx.oracle_fail("CSVHandler rejected a generated file", case, str(e)[:100], "dataset")
+        return
     except Exception as e:  # noqa: BLE001
         ctx.oracle_fail("CSVHandler failed on a generated file", case, type(e).__name__ + ": " + str(e)[:100], "dataset")
         return
+    cases.append((line_hdr, "(ok %s)" % " ".join(hs(c) for c in cols), {k: case[k] for k in ("kind", "seed", "label", "index")}))
     if list(h.dataset.keys()) != ["sequence"]:
         ctx.oracle_fail("CSV dataset is not one sequence", case, list(h.dataset.keys()), ["sequence"])
-    if cols != header:
-        ctx.oracle_fail("CSV columns are not the header names", case, cols, header)
+    if dup:
+        # two columns of one name cannot both be members of a sequence: nothing but refusing the file keeps cell j of a
+        # record under title j
+        ctx.oracle_fail("a CSV file with two columns of one name is served (cells end up under the wrong title)", case,
+                        {"columns": cols, "first record": got_rows[:1]}, {"titles": names, "expected": "file rejected"})
+        return
+    if cols != names or [c.name for c in seq.children()] != names:
+        ctx.oracle_fail("CSV columns are not the header names", case, cols, names)
     if got_rows != rows or [[type(c) for c in r] for r in got_rows] != [[type(c) for c in r] for r in rows]:
         ctx.oracle_fail("CSV records are not the file's rows in order", case, got_rows[:3], rows[:3])
+    # cell j of every record belongs to column j: each column read on its own is the j-th cells of the file's rows
+    for j, nm in enumerate(names):
+        try:
+            colv = [x for x in seq[nm].iterdata()] if rows else []
+        except Exception as e:  # noqa: BLE001
+            colv = "escaped:" + type(e).__name__
+        want_col = [r[j] for r in rows]
+        if colv != want_col or [type(x) for x in colv] != [type(x) for x in want_col]:
+            ctx.oracle_fail("column read on its own is not the column of that title in the file", dict(case, column=nm),
+                            colv if isinstance(colv, str) else colv[:3], want_col[:3])
     if sidecar is not None:
         wantg = {}
         for k in sidecar:
@@ -708,9 +756,7 @@ def check_csv(ctx, rng, idx, tmp, cases):
                 wantg.update(sidecar[k])
         if dict(h.dataset.attributes) != wantg:
             ctx.oracle_fail("side-car global attributes not attached", case, dict(h.dataset.attributes), wantg)
-        for c in header:
-            if c not in cols:
-                continue        # (already reported: the columns are not the header names)
+        for c in cols:
             want = sidecar.get("sequence", {}).get(c, {})
             if dict(seq[c].attributes) != want:
                 ctx.oracle_fail("side-car column attributes not attached", case, {c: dict(seq[c].attributes)}, {c: want})
@@ -724,7 +770,7 @@ def check_csv(ctx, rng, idx, tmp, cases):
     else:
         top = {k: v for k, v in sidecar.items() if k != "sequence"}
         sc = "(%s %s)" % (named_sexp(top), named_sexp(sidecar.get("sequence", {})))
-    line = "fh-csv (%s) (%s) %s" % (" ".join(hs(c) for c in header),
+    line = "fh-csv (%s) (%s) %s" % (" ".join(hs(c) for c in names),
                                     " ".join("(" + " ".join(cell_sexp(x) for x in r) + ")" for r in rows), sc)
     cases.append((line, impl, {k: case[k] for k in ("kind", "seed", "label", "index")}))
     ctx.count(("csv", ctx.seed, ctx._label, idx), len(rows) > 0,
